@@ -10,8 +10,8 @@
 EXTENDS SCSched
 
 TracesS == ndJsonDeserialize("traces.ndjson")
-VARIABLES ti, l, ent, stopped
-tsvars == <<svars, ti, l, ent, stopped>>
+VARIABLES ti, l, ent, stopped, epv, dep
+tsvars == <<svars, ti, l, ent, stopped, epv, dep>>
 
 ToSetS(q) == {q[i] : i \in 1..Len(q)}
 OutOfS(jo) == [i \in 1..Len(jo) |->
@@ -22,15 +22,27 @@ EnteredAfter(o, i, t, e) ==
   IF i > Len(o) THEN e
   ELSE EnteredAfter(o, i + 1, t, IF o[i].k = "sched" THEN [e EXCEPT ![o[i].a] = t] ELSE e)
 
+RECURSIVE EpAfter(_, _, _)
+\* [ep, doneEp] after a step's log
+EpAfter(o, i, g) ==
+  IF i > Len(o) THEN g
+  ELSE IF o[i].k = "sched" THEN EpAfter(o, i + 1, [g EXCEPT !.ep[o[i].a] = @ + 1])
+  ELSE IF o[i].k \in {"svc_done", "svc_error"} /\ o[i].a \in AllInvIds
+       THEN EpAfter(o, i + 1, [g EXCEPT !.doneEp = [x \in DOMAIN @ \cup {o[i].a} |->
+                                     IF x = o[i].a THEN g.ep[InvOwner(o[i].a)] ELSE @[x]]])
+  ELSE EpAfter(o, i + 1, g)
+
 TInit == /\ ti \in 1..Len(TracesS) /\ l = 0 /\ mi = TracesS[ti].mi
+         /\ epv = [s \in Machines[TracesS[ti].mi].states |-> 0] /\ dep = <<>>
          /\ ent = [s \in Machines[TracesS[ti].mi].states |-> 0] /\ stopped = FALSE
          /\ status = "" /\ config = {} /\ hist = <<>> /\ ctx = <<>> /\ output = "" /\ queue = <<>> /\ now = 0
-         /\ timers = {} /\ busy = 0 /\ busySeq = 0 /\ seq = 0 /\ deferred = <<>> /\ ghost = <<>> /\ out = <<>>
+         /\ timers = {} /\ svcs = {} /\ busy = 0 /\ busySeq = 0 /\ seq = 0 /\ deferred = <<>> /\ ghost = <<>> /\ out = <<>>
          /\ lastStep = <<>>
 TNext == /\ l < Len(TracesS[ti].steps) /\ l' = l + 1
          /\ LET j == TracesS[ti].steps[l'] IN
               /\ ent' = EnteredAfter(OutOfS(j.out), 1, j.t, ent)
               /\ stopped' = (stopped \/ j.op = "stop")
+              /\ LET g == EpAfter(OutOfS(j.out), 1, [ep |-> epv, doneEp |-> dep]) IN epv' = g.ep /\ dep' = g.doneEp
          /\ UNCHANGED <<svars, ti>>
 TSpec == TInit /\ [][TNext]_tsvars
 
@@ -38,6 +50,7 @@ TVerdict ==
   LET j == TracesS[ti].steps[l']
       o == OutOfS(j.out)
   IN [ti |-> ti, l |-> l', tag |-> TracesS[ti].tag,
+      C09 |-> C09Walk(o, 1, [ep |-> epv, doneEp |-> dep, cur |-> ""], {}),
       C08 |-> C08Walk(o, 1, j.t, [entered |-> ent, sel |-> ent, fired |-> {}], {})
               \cup (IF stopped THEN Tag(\A i \in 1..Len(o) : o[i].k \notin {"on_transition", "act", "event"}, "activity_after_stop")
                     ELSE {})]
